@@ -167,24 +167,27 @@ Proof.
     rewrite I. exact Logic.I.
 Qed.
 
+Lemma load_environ_id st e : environ st = Some e -> load_environ st = st.
+Proof. intros E. unfold load_environ. rewrite E. reflexivity. Qed.
+
 Lemma good_env_reload st : EnvInv st -> Good (os_env st) (os_env st) (env_reload st).
 Proof.
-  intros I. unfold env_reload, load_environ_force, EnvInv in *.
-  destruct (environ st) as [e|] eqn:E.
-  - destruct I as [Iv Ic]. repeat split; cbn [environ os_env var_names cleaned]; try tauto.
-    destruct (cleaned st) as [c|]; [|exact Logic.I].
-    apply cleaned_ok_equiv with (names := dom (os_env st) ++ filter (not_in (var_names st)) (dom (os_env st))).
-    + intros v. rewrite in_app_iff, In_filter_not_in. tauto.
-    + apply cleaned_ok_update, build_cleaned_ok.
-  - repeat split; cbn [environ os_env var_names cleaned app]; rewrite ?I; try exact Logic.I.
-    + intros H. apply In_filter_not_in in H. tauto.
-    + intros H. apply In_filter_not_in. cbn [In]. tauto.
+  intros I. destruct (good_load_environ st I) as (I0 & E0 & O0).
+  unfold env_reload, load_environ_force. rewrite E0, O0. unfold EnvInv in *. rewrite E0 in I0.
+  destruct I0 as [Iv Ic]. split; [|split; reflexivity].
+  cbn [environ os_env var_names cleaned]. split; [tauto|].
+  destruct (cleaned (load_environ st)) as [c|]; [|exact Logic.I].
+  apply cleaned_ok_equiv with
+    (names := dom (os_env st) ++ filter (not_in (var_names (load_environ st))) (dom (os_env st))).
+  - intros v. rewrite in_app_iff, In_filter_not_in. tauto.
+  - apply cleaned_ok_update, build_cleaned_ok.
 Qed.
 
 Lemma good_update_with e os st u :
   Good e os st -> Good (env_update e u) os (update_with st u).
 Proof.
-  intros (I & E & O). unfold update_with, EnvInv in *. rewrite E in *.
+  intros (I & E & O). unfold update_with. rewrite (load_environ_id st e E).
+  unfold EnvInv in *. rewrite E in *.
   destruct I as [Iv Ic]. repeat split; cbn [environ os_env var_names cleaned]; try assumption.
   - intros H. apply app_new_equiv in H. apply dom_env_update. rewrite <- Iv. exact H.
   - intros H. apply app_new_equiv. apply dom_env_update in H. rewrite Iv. exact H.
@@ -610,8 +613,13 @@ Proof.
   congruence.
 Qed.
 
+Lemma load_environ_os st : os_env (load_environ st) = os_env st.
+Proof. unfold load_environ. destruct (environ st); reflexivity. Qed.
+
 Lemma update_with_os st u : os_env (update_with st u) = os_env st.
-Proof. unfold update_with. destruct (environ st); reflexivity. Qed.
+Proof.
+  unfold update_with. destruct (environ (load_environ st)); cbn [os_env]; apply load_environ_os.
+Qed.
 
 Lemma prepare_os st c a : os_env (prepare st c a) = os_env st.
 Proof.
@@ -816,23 +824,23 @@ Lemma environ_untouched :
   (forall st h, os_env (run st h) = user_edits (os_env st) h).
 Proof. split; [exact library_op_os | intros st h; apply run_os]. Qed.
 
-(* F22: prefix + tuple of candidate names - the model (like the code) looks up prefix ++ repr(tuple) *)
-Definition f22_os : env := [(S "P_A", S "1")].
-Definition f22_cls : cls :=
+(* F37: prefix + tuple of candidate names - the model (like the code) looks up prefix ++ repr(tuple) *)
+Definition f37_os : env := [(S "P_A", S "1")].
+Definition f37_cls : cls :=
   mkCls [mkField (S "x") (ExTuple [S "Q"; S "A"]) true] PScreaming (S "P_") [] [].
-Definition f22_args : args := mkArgs [] true EFDefault None None.
+Definition f37_args : args := mkArgs [] true EFDefault None None.
 
 Lemma refuted_prefix_tuple :
-  a_reload f22_args = true /\ safe_cls f22_cls f22_args = false /\
-  snd (instantiate (init_state f22_os) f22_cls f22_args) = OInstance [SDefault] /\
-  ref_resolve (overlay f22_os [] []) PScreaming (S "P_") [] (c_fields f22_cls) = [SEnv (S "P_A") (S "1")] /\
-  ~ adm_outcome (overlay f22_os (eff_secrets f22_cls f22_args) (eff_dotenv f22_cls f22_args))
-      f22_cls f22_args (snd (instantiate (init_state f22_os) f22_cls f22_args)).
+  a_reload f37_args = true /\ safe_cls f37_cls f37_args = false /\
+  snd (instantiate (init_state f37_os) f37_cls f37_args) = OInstance [SDefault] /\
+  ref_resolve (overlay f37_os [] []) PScreaming (S "P_") [] (c_fields f37_cls) = [SEnv (S "P_A") (S "1")] /\
+  ~ adm_outcome (overlay f37_os (eff_secrets f37_cls f37_args) (eff_dotenv f37_cls f37_args))
+      f37_cls f37_args (snd (instantiate (init_state f37_os) f37_cls f37_args)).
 Proof.
   split; [reflexivity|]. split; [reflexivity|]. split; [vm_compute; reflexivity|].
   split; [vm_compute; reflexivity|].
   intros (ss & F & E & _).
-  cbn [c_fields f22_cls map] in F.
+  cbn [c_fields f37_cls map] in F.
   inversion F as [|s y ss' l' H1 H2]; subst. inversion H2; subst. clear F H2.
   destruct s; vm_compute in E; try discriminate E.
   vm_compute in H1. destruct H1 as [H|[]]. discriminate H.
